@@ -74,7 +74,7 @@ func countNums(thorough bool) []cty.Value {
 // parameters of functions whose work does not grow with the argument (index arithmetic on such
 // arguments can overflow).
 func intEdgeNums() []cty.Value {
-	return []cty.Value{cty.NumberIntVal(math.MaxInt64), cty.NumberIntVal(math.MaxInt64 - 1), cty.NumberIntVal(math.MinInt64), cty.NumberIntVal(math.MinInt64 + 1),
+	return []cty.Value{cty.NumberIntVal(math.MaxInt64), cty.NumberIntVal(math.MaxInt64 - 1), cty.NumberIntVal(math.MaxInt64 - 2), cty.NumberIntVal(math.MaxInt64 - 3), cty.NumberIntVal(math.MinInt64), cty.NumberIntVal(math.MinInt64 + 1),
 		cty.NumberIntVal(math.MaxInt32), cty.NumberIntVal(math.MaxInt32 + 1), cty.NumberIntVal(math.MinInt32), cty.NumberUIntVal(math.MaxUint64)}
 }
 
@@ -402,7 +402,9 @@ func init() {
 		"2006-01-02T15:04:05", "2006-13-02T15:04:05Z", "not a time", "2006-01-02t15:04:05z", "0000-01-01T00:00:00Z", "9999-12-31T23:59:59Z",
 		"2006-01-02T24:00:00Z", "2006-1-2T15:04:05Z", "2021-02-29T00:00:00Z", "2006-01-02T15:04:05+24:00", "2006-01-02T15:04:05-07", "2006-01-02T15:04Z", "2006-01-02T15:04:60Z", "2006-01-02 15:04:05Z", "2006-01-02T15:04:05.Z", "1999-12-31T23:59:59+00:30",
 		// every sign x minute part of the zone offset, day/month/year roll-over through the offset
-		"2006-01-02T15:04:05-03:30", "2006-01-01T00:10:00-09:45", "2006-12-31T23:50:00+05:45", "2006-01-02T15:04:05-00:30", "2006-01-02T15:04:05+14:00", "2006-01-02T15:04:05-12:00", "2006-01-02T15:04:05+00:00", "2006-01-02T15:04:05-23:59")
+		"2006-01-02T15:04:05-03:30", "2006-01-01T00:10:00-09:45", "2006-12-31T23:50:00+05:45", "2006-01-02T15:04:05-00:30", "2006-01-02T15:04:05+14:00", "2006-01-02T15:04:05-12:00", "2006-01-02T15:04:05+00:00", "2006-01-02T15:04:05-23:59",
+		// fractional seconds of every length around the nine digits a nanosecond count holds
+		"2006-01-02T15:04:05.1Z", "2006-01-02T15:04:05.999999999Z", "2006-01-02T00:00:00.9999999999Z", "2006-01-02T15:04:59.99999999999999999999Z", "2006-01-02T15:04:05.000000000001Z", "2006-01-02T23:59:59.1234567891+05:30", "2006-01-02T15:04:05.0000000000Z")
 	add("formatdate", stdlib.FormatDateFunc, func(pos int, th bool) []cty.Value {
 		if pos == 1 {
 			return stamps
@@ -417,13 +419,16 @@ func init() {
 		if pos == 0 {
 			return stamps
 		}
-		return sv("1h", "-1h", "1.5h", "", "1", "1d", "10000000h", "1ns", "\u00e9", "0", "1h30m", "-24h", "87600h", "2562047h", "1m1s1ms1us", "+1s", "h")
+		return sv("1h", "-1h", "1.5h", "", "1", "1d", "10000000h", "1ns", "\u00e9", "0", "1h30m", "-24h", "87600h", "2562047h", "1m1s1ms1us", "+1s", "h", "-1ns", "999999999ns")
 	})
 	// format
 	fmts := sv("", "%s", "%d", "%v", "%%", "%q", "%5.2f", "%[2]s %[1]s", "%", "%z", "%[0]d", "%-5s|", "%x", "%t", "%e", "%#v", "%+d", "%05d", "%.1s", "%[3]s", "%*d", "hello",
 		"%s %s", "%b", "%o", "%X", "%g", "%E", "%G", "%5s|", "%.0f", "%[1]s%[1]s", "%[1", "%[a]s", "%!", "%s%", "%3d|", "% d", "%+s", "%#x", "%08.3f", "%.2s|", "%c", "%U", "%10.3v|", "%-08d|", "%+.1e", "%[2]d",
 		// rejected only after output has been produced
-		"50%, of %s", "total: %5", "a%s%", "x=%s;%[1", "%s and %!")
+		"50%, of %s", "total: %5", "a%s%", "x=%s;%[1", "%s and %!",
+		// argument indexes, widths and precisions at and beyond the edges of the Go integer types
+		"%[18446744073709551615]d", "%[9223372036854775807]d", "%[9223372036854775808]s", "%[4294967296]v", "%[-1]d", "%[1]", "%[99999999999999999999999]d",
+		"%9223372036854775807d", "%.9223372036854775808f")
 	genFmts := func() []cty.Value {
 		// the documented verb grammar: % flags width .prec [n] verb
 		var out []cty.Value
